@@ -1,5 +1,4 @@
 import Model.Name
-import Generated.C16
 /-!
 Model of the stub resolver's decision logic: `dns/resolver.py`
 (`BaseResolver._get_qnames_to_try`, `_compute_timeout`, `_Resolution.{__init__,next_request,
@@ -35,10 +34,6 @@ structure Backoff where
   factor : Nat
   cap : Nat
   deriving Repr, DecidableEq
-
-/-- the schedule of the code as regenerated from the working tree -/
-def codeBackoff : Backoff :=
-  { init := ConstsC16.backoffInitMs, factor := ConstsC16.backoffFactor, cap := ConstsC16.backoffCapMs }
 
 /-! ## responses and `resolve_chaining` -/
 
@@ -498,11 +493,5 @@ def resolve (cfg : Config) (bo : Backoff) (clip : Bool) (maxChain : Nat) (req : 
     | .ok qnames =>
       let env := mkEnv cfg bo clip maxChain req now qnames
       run env (fuelBound bo cfg.servers.length qnames.length env.lifetime) (initSt now cache script qnames)
-
-/-- `Resolver.resolve` of the working tree: the back-off schedule, the clipping of the back-off sleep and `MAX_CHAIN`
-are the values regenerated from the code on every run -/
-def codeResolve (cfg : Config) (req : Request) (now : Nat) (cache : Cache) (script : List ScriptStep) :
-    List Event × Result × St :=
-  resolve cfg codeBackoff ConstsC16.clipSleep ConstsC16.maxChain req now cache script
 
 end Model.Resolver
